@@ -12,5 +12,6 @@ CONSTANTS
   SOLVER = {}
   SCALES = {"unit", "bigcore", "small"}
   SYSCLS = {}
+  OPTS = {"verbose", "nswp40", "kick1", "kick22", "rmax64"}
 INVARIANT WellTyped
 CHECK_DEADLOCK FALSE
